@@ -187,6 +187,44 @@ static void matrix_ops(Rng& g, int m, int n, int k, int style)
 	IM bk = rand_im(g, m, k, style), cc = rand_im(g, k, n, style), dd = rand_im(g, k, k, style);
 	request({{"e", "Block"}, {"A", ja}, {"B", bk}, {"C", cc}, {"D", dd}}, true,
 			[&] { return mjson(Matrix(std::vector<std::vector<Matrix>> {{A, to_m(bk, ea)}, {to_m(cc, ea), to_m(dd, ea)}}), ea); });
+	// inconsistent partitions (one block with one more row or column): not defined, at every position of the 2x2 layout
+	if(m + n + k <= 7)
+		for(int pos = 0; pos < 4; pos++)
+			for(int dir = 0; dir < 2; dir++)
+			{
+				int ra = m, ca = n, rb = m, cb = k, rc = k, cn = n, rd = k, cd = k;
+				int* tgt[4][2] = {{&ra, &ca}, {&rb, &cb}, {&rc, &cn}, {&rd, &cd}};
+				(*tgt[pos][dir])++;
+				IM xa = rand_im(g, ra, ca, style), xb = rand_im(g, rb, cb, style), xc = rand_im(g, rc, cn, style), xd = rand_im(g, rd, cd, style);
+				request({{"e", "Block"}, {"A", xa}, {"B", xb}, {"C", xc}, {"D", xd}}, false,
+						[&] { return mjson(Matrix(std::vector<std::vector<Matrix>> {{to_m(xa, ea), to_m(xb, ea)}, {to_m(xc, ea), to_m(xd, ea)}}), ea); });
+			}
+	// scalars that are not powers of two, tiny (subnormal) and huge: every spelling of the division gives entry / s (to rounding),
+	// zero entries stay zero, finite quotients stay finite
+	{
+		static const double SC[] = {3.0, -7.0, 0.1, 1e-310, -4e-320, 1e300, 4.9e-324};
+		double sc = SC[g.range(0, 6)];
+		long worst = 0;
+		bool fin   = true;
+		auto cmp   = [&](double got, double x) {
+			  double exp = x / sc;
+			  if(std::isfinite(exp) != std::isfinite(got) || std::isnan(got))
+				  fin = false;
+			  else if(std::isfinite(exp))
+				  worst = std::max<long>(worst, (long)ulpdist(got, exp, 1000));
+		};
+		Matrix D1 = A.Division(sc), D2 = A / sc;
+		Vector D3 = V / sc;
+		for(int i = 0; i < m; i++)
+			for(int j = 0; j < n; j++)
+			{
+				cmp(D1[i][j], A[i][j]);
+				cmp(D2[i][j], A[i][j]);
+			}
+		for(int j = 0; j < n; j++)
+			cmp(D3[j], V[j]);
+		T->emit({{"e", "Corner"}, {"op", "division"}, {"scalar", hexbits(sc)}, {"ulps", worst}, {"fin", fin}});
+	}
 }
 
 static void vector_ops(Rng& g, int d, int style)
